@@ -56,7 +56,7 @@ def gen_cases(chk):
     # hand-built boundary blocks: remaining output 5..9 at a match, distances 1..9 (overrun vs safe copy), lenient tails
     for dist in range(1, 12):
         for ml in (4, 5, 8, 11, 12, 19, 20):
-            for slack in (5, 6, 7, 8, 9, 13):
+            for slack in (0, 1, 2, 3, 4, 5, 6, 7, 8, 9, 13):
                 lit = list(range(65, 65 + 12))
                 blk = [(12 << 4) | min(ml - 4, 15)] + lit + [dist, 0]
                 if ml - 4 >= 15: L.emit_len(ml - 4 - 15, blk)
@@ -72,6 +72,42 @@ def gen_cases(chk):
         blk = L.encode(plain, rng, 'random')
         k = rng.randrange(1, 7)
         add(len(plain) + rng.randrange(0, 3), blk + [rng.randrange(256) for _ in range(k)], 'garbage-tail', plain)
+    # a match sequence whose fields end at every distance 0..8 from the end of the block, with 0..4 length-extension
+    # bytes (0xFF chains and terminators) and every remaining-byte count: the MINCODA / end-of-block boundary
+    for lits in (0, 8, 12):
+        for mnib in (0, 3, 14, 15):
+            for ext in ([], [0], [7], [255], [255, 0], [255, 255], [255, 255, 255], [255, 255, 255, 255], [255, 255, 255, 255, 255, 255, 255, 255]):
+                for rem in range(0, 9):
+                    for tailkind in (0, 1):
+                        pre = [0x80] + [0x61 + k for k in range(8)] + [3, 0, 0x50] + [0x71 + k for k in range(5)] if lits == 0 else []
+                        blk = list(pre) + [(min(lits, 15) << 4) | mnib] + [0x41 + k for k in range(lits)] + [rng.choice((1, 4, 8)), 0]
+                        blk += ext if mnib == 15 else []
+                        if rem:
+                            blk += ([min(rem - 1, 15) << 4] + [0x76 + k for k in range(rem - 1)]) if tailkind == 0 else [255] * rem
+                        for osz in (len(blk) + 1, 32, 64, 300):
+                            add(osz, blk, 'coda-boundary')
+    # every prefix of short valid blocks that contain long (nibble-15) lengths: the end-of-block parsing of each field
+    for _ in range(400 if thorough else 40):
+        plain = L.gen_plain(rng, 120)
+        blk = L.encode(plain, rng, rng.choice(('greedy', 'random')))
+        for k in range(1, len(blk)):
+            add(len(plain) + rng.choice((0, 0, 1, -1)), blk[:k], 'prefix', plain)
+    # hand-built incomplete final sequences: token, literals, 0-2 distance bytes, 0-5 length-extension bytes, 0-6 trailing bytes
+    for _ in range(6000 if thorough else 1200):
+        head = L.encode(L.gen_plain(rng, 80), rng, 'random')[:-6] if rng.random() < 0.5 else [0x80 | rng.choice((0, 4, 15))] + [rng.randrange(256) for _ in range(8)] + [rng.choice((1, 2, 8, 9)), 0]
+        lnib, mnib = rng.choice((0, 1, 5, 14, 15)), rng.choice((0, 1, 14, 15, 15, 15))
+        seq = [(lnib << 4) | mnib]
+        ll = lnib
+        if lnib == 15:
+            e = [rng.choice((0, 1, 255)) for _ in range(rng.randrange(1, 3))]
+            if e[-1] == 255: e.append(rng.choice((0, 3)))
+            seq += e; ll += sum(e)
+        seq += [rng.randrange(256) for _ in range(min(ll, 40))]
+        seq += [rng.choice((1, 4, 8, 9, 0)), 0][:rng.choice((0, 1, 2, 2, 2))]
+        seq += [rng.choice((255, 255, 0, 7)) for _ in range(rng.randrange(0, 6))]
+        seq += [rng.randrange(256) for _ in range(rng.randrange(0, 7))]
+        blk = head + seq
+        add(len(blk) + rng.choice((1, 5, 20, 40, 300)), blk, 'tail-ext')
     for _ in range(20000 if thorough else 1500):
         n = rng.randrange(0, 40)
         add(rng.randrange(0, 80), [rng.choice((0, 1, 4, 15, 16, 0x1F, 0xF0, 0xFF, rng.randrange(256))) for _ in range(n)], 'random')
